@@ -21,6 +21,7 @@ from harness.core import Prop, outcome, orat, unrat
 BUILTIN = ["Equal", "x", "1/x", "1/(x^2)", "y", "1/y", "1/(y^2)"]
 TOL = 1e-9          # relative tolerance on gradient/intercept (in the column-scaled norm) and r²
 RHO_MIN = 1e-6      # conditioning guard: D/(Sw*Swxx) below this => undetermined
+COV_MARGIN_MIN = 1e-12  # 1 - Σw²/(Σw)² below this => r² not compared (np.cov's normalisation cancels)
 LADDERS = [
     [0, 1, 2, 5, 10], [0, 0.1, 0.5, 1, 5, 10, 50], [0, 10, 20, 50, 100, 200, 500],
     [0, 0.5, 1, 2, 4, 8], [0, 1, 10, 100, 1000], [0, 0.05, 0.1, 0.2, 0.5, 1.0], [0, 25, 50, 75, 100],
@@ -142,6 +143,9 @@ class C06(Prop):
     ]
     assumptions = [
         "r² is compared only where the responses are not (nearly) constant: Dy/(Sw*Swyy) >= 1e-10 (DESIGN 6a)",
+        "r² is not compared when one weight carries all but 1e-12 of the total (1 - Σw²/(Σw)² < 1e-12): np.cov's "
+        "normalisation Σw − Σw²/Σw then cancels in floating point and pewlib returns NaN (observed: points "
+        "[[0, 0.0233], [1000, 8832044]] with 1/(y^2): weights 1839.7 and 1.28e-14, rsq = NaN, exact value 1)",
         "point sets whose usable rows do not have two distinct concentrations, or whose weights are not all positive, "
         "are outside the property's hypothesis; only the weights and 'does not change' are not demanded there",
         "`error` is not part of the property statement; it is compared with the model only (correspondence)",
@@ -303,7 +307,10 @@ class C06(Prop):
         spec_fit = fit_view(base, "spec")
         fitted, hyp = base["fitted"], base["hyp"]
         rho = float(unrat(base["rho"])) if fitted and hyp else None
-        check_rsq = bool(fitted and hyp and base["dy_pos"] and float(unrat(base["rho_y"])) >= 1e-10)
+        # np.cov's factor Σw − Σw²/Σw cancels to 0 (or below) in floating point when one weight exceeds the
+        # sum of the others by ~1e16: r² is then rounding-determined (NaN), see assumptions
+        dominant = bool(fitted and hyp and float(unrat(base["cov_margin"])) < COV_MARGIN_MIN)
+        check_rsq = bool(fitted and hyp and base["dy_pos"] and float(unrat(base["rho_y"])) >= 1e-10 and not dominant)
         undet = bool(fitted and hyp and rho < RHO_MIN)
         impl, model, spec = [], [], []
         spec_ok = model_ok = True
@@ -314,7 +321,10 @@ class C06(Prop):
             impl.append(got)
             model.append(mv)
             if "raises" in got:
-                spec_ok = model_ok = False
+                # failing is a violation where the property speaks: fewer than two usable rows
+                # ("reset to the identity instead of failing") and inside the hypothesis
+                if not fitted or hyp:
+                    spec_ok = model_ok = False
                 spec.append(spec_fit)
                 continue
             w_ok = weights_equal(got["weights"], mv["weights"])
@@ -339,6 +349,8 @@ class C06(Prop):
                 m_ok = False
             model_ok = model_ok and m_ok
         feats = self.fit_features(case, clean_rows, fitted, hyp, check_rsq)
+        if dominant and feats:
+            feats = set(feats) | {"dominant-weight>1e12(r2 not compared)"}
         return outcome({"variants": impl}, {"variants": model}, {"variants": spec}, spec_ok=spec_ok, model_ok=model_ok,
                        undetermined=undet, hyp=(hyp or not fitted), features=feats,
                        note=f"variants: clean, given, {len(case['perms'])} permutations")
@@ -416,7 +428,13 @@ class C06(Prop):
                 f = case["fit"]
                 pts = np.array([[nan(x), nan(y)] for x, y in f["rows"]], dtype=np.float64).reshape(-1, 2)
                 wts = f["weighting"] if f["cw"] is None else (f["weighting"], np.array([nan(w) for w in f["cw"]]))
-                cal = Calibration.from_points(pts, weights=wts)
+                try:
+                    with np.errstate(all="ignore"):
+                        cal = Calibration.from_points(pts, weights=wts)
+                except Exception:
+                    # the fit itself failed: judge it as a fit case (hypothesis logic lives there)
+                    return self.eval_fit({"kind": "fit", "rows": f["rows"], "weighting": f["weighting"], "cw": f["cw"],
+                                          "perms": []}, ctx)
         g, c = float(cal.gradient), float(cal.intercept)
         if not (math.isfinite(g) and math.isfinite(c)) or g == 0.0:
             return outcome({}, {}, {}, hyp=False, features=[], note="degenerate fitted calibration (outside hypothesis)")
